@@ -1,5 +1,1490 @@
-//! C10 — not implemented yet.
+//! C10 — checked deserialization only yields valid group elements and never panics.
+mod common;
+mod curves;
+
+use ark_ec::models::short_weierstrass::{Affine as SwAffine, Projective as SwProj, SWCurveConfig, SWFlags};
+use ark_ec::models::twisted_edwards::{Affine as TeAffine, Projective as TeProj, TECurveConfig};
+use ark_ec::pairing::{Pairing, PairingOutput};
+use ark_ec::AffineRepr;
+use ark_ff::fields::{Fp2, Fp2Config};
+use ark_ff::{AdditiveGroup, Field, MontFp, One, PrimeField, Zero};
+use ark_serialize::{CanonicalDeserialize, CanonicalDeserializeWithFlags, CanonicalSerialize, Compress, SerializationError, Validate};
+use common::*;
+use num_bigint::BigUint;
+use std::sync::{Arc, OnceLock};
+use vh_core::curve::*;
+use vh_core::engine::{no_panic, Obs, PropSpec, Rel, Tape, Tier, R};
+use vh_core::modint::{big, pow2, to_limbs};
+use vh_core::tower::{edge_elem, OracleRepr, TowerOf};
+use vh_core::{ensure, fail, Fail};
+
+fn cname(c: Compress) -> &'static str {
+    if c == Compress::Yes {
+        "compressed"
+    } else {
+        "uncompressed"
+    }
+}
+fn vname(v: Validate) -> &'static str {
+    if v == Validate::Yes {
+        "checked"
+    } else {
+        "unchecked"
+    }
+}
+
+pub struct ZSecpFq2Cfg;
+impl Fp2Config for ZSecpFq2Cfg {
+    type Fp = vh_core::zoo::Secp256k1;
+    const NONRESIDUE: Self::Fp = MontFp!("-1");
+    const FROBENIUS_COEFF_FP2_C1: &'static [Self::Fp] = &[MontFp!("1"), MontFp!("-1")];
+}
+pub type ZSecpFq2 = Fp2<ZSecpFq2Cfg>;
+
+/// reference scalar multiplication: plain double-and-add over `double_in_place` / `+=` (no GLV, no wNAF)
+fn ref_mul<G: AdditiveGroup>(base: &G, k: &BigUint) -> G {
+    let mut r = G::zero();
+    for i in (0..k.bits()).rev() {
+        r.double_in_place();
+        if k.bit(i) {
+            r += base;
+        }
+    }
+    r
+}
+
+/// reference power: square-and-multiply over `square_in_place` / `*=`
+fn ref_pow<F: Field>(base: &F, k: &BigUint) -> F {
+    let mut r = F::one();
+    for i in (0..k.bits()).rev() {
+        r.square_in_place();
+        if k.bit(i) {
+            r *= base;
+        }
+    }
+    r
+}
+
+fn field_order<F: OracleRepr>(tw: &TowerOf<F>) -> BigUint {
+    tw.t.order()
+}
+
+/// Euler criterion evaluated by the harness: v = 0 or v^((q-1)/2) = 1
+fn is_square<F: Field>(v: &F, half: &BigUint) -> bool {
+    v.is_zero() || ref_pow(v, half).is_one()
+}
+
+fn small_prime_factors(h: &BigUint) -> Vec<u64> {
+    let mut out = Vec::new();
+    let mut n = h.clone();
+    let mut p = 2u64;
+    while p < 2000 && !n.is_one() {
+        if (&n % p).is_zero() {
+            out.push(p);
+            while (&n % p).is_zero() {
+                n /= p;
+            }
+        }
+        p += if p == 2 { 1 } else { 2 };
+    }
+    out
+}
+
+/// Mutations that are independent of the value type: applied to a valid encoding.
+/// Returns (bytes, label, must_err_when_checked)
+fn nonreduced(bytes: &[u8], lay: &[Seg], p: &BigUint, bits: usize, t: &mut Tape<'_>) -> (Vec<u8>, &'static str) {
+    let mut out = bytes.to_vec();
+    let seg = &lay[t.idx(lay.len())];
+    let area = seg.area_bits();
+    let room = pow2(area) - p;
+    let v = seg.get(&out);
+    if area > bits && t.chance(1, 3) {
+        let pos = bits + t.idx(area - bits);
+        seg.put(&mut out, &(v | pow2(pos)));
+        (out, "non-reduced.high-bit")
+    } else {
+        let n = (&v % &room) + p;
+        seg.put(&mut out, &n);
+        (out, "non-reduced.plus-p")
+    }
+}
+
+fn flip_bits(bytes: &[u8], t: &mut Tape<'_>) -> Vec<u8> {
+    let mut out = bytes.to_vec();
+    if out.is_empty() {
+        return out;
+    }
+    for _ in 0..t.range(1, 3) {
+        let b = t.idx(8 * out.len());
+        out[b / 8] ^= 1 << (b % 8);
+    }
+    out
+}
+
+/// overwrite the flag bits of the segment that carries them with an arbitrary pattern
+fn mutate_flags(bytes: &[u8], lay: &[Seg], t: &mut Tape<'_>) -> Vec<u8> {
+    let mut out = bytes.to_vec();
+    if let Some(seg) = lay.iter().find(|s| s.flag_bits > 0) {
+        let i = seg.msb_index();
+        let fm = seg.flag_mask();
+        out[i] = (out[i] & !fm) | ((t.below(256) as u8) & fm);
+    } else {
+        let i = out.len() - 1;
+        out[i] ^= 0x80;
+    }
+    out
+}
+
+fn plausible(lay: &[Seg], total: usize, p: &BigUint, nlimbs: usize, t: &mut Tape<'_>) -> Vec<u8> {
+    let mut out = vec![0u8; total];
+    for s in lay {
+        let n = big(&t.limbs(nlimbs + 1)) % p;
+        s.put(&mut out, &n);
+    }
+    for s in lay.iter().filter(|s| s.flag_bits > 0) {
+        let i = s.msb_index();
+        out[i] |= (t.below(256) as u8) & s.flag_mask();
+    }
+    out
+}
+
+struct Expect<V> {
+    /// the encoding is a valid one of this value: Ok(value) required in every mode
+    value: Option<V>,
+    /// with Validate::Yes the input must be rejected
+    must_err: bool,
+    label: &'static str,
+}
+
+// ------------------------------------------------------------------------------------------
+// field elements and towers
+// ------------------------------------------------------------------------------------------
+
+fn field_hostile<F: OracleRepr>(tw: &TowerOf<F>, name: &str, t: &mut Tape<'_>, o: &mut Obs) -> R {
+    let bits = tw.prime.bits;
+    let p = &tw.prime.p;
+    let d = tw.t.degree();
+    let fb = match t.below(3) {
+        0 => 0,
+        1 => 2,
+        _ => 8,
+    };
+    let lay = field_layout(0, d, bits, fb);
+    let total = layout_len(&lay);
+    let (e, _) = edge_elem(t, &tw.t, &tw.prime);
+    let v = F::from_o(&e);
+    let mut enc = Vec::new();
+    let adv = match fb {
+        0 => {
+            v.serialize_compressed(&mut enc).map_err(|e| Fail { sig: "serialize.err".into(), msg: format!("{:?}", e) })?;
+            v.compressed_size()
+        },
+        2 => {
+            v.serialize_with_flags(&mut enc, SWFlags::YIsNegative).map_err(|e| Fail { sig: "serialize.err".into(), msg: format!("{:?}", e) })?;
+            v.serialized_size_with_flags::<SWFlags>()
+        },
+        _ => {
+            v.serialize_with_flags(&mut enc, HF::<8>(0xa5)).map_err(|e| Fail { sig: "serialize.err".into(), msg: format!("{:?}", e) })?;
+            v.serialized_size_with_flags::<HF<8>>()
+        },
+    };
+    ensure!(adv == total && enc.len() == total, "size.layout", "advertised {} written {} expected layout {}", adv, enc.len(), total);
+    let (mut input, label, must_err, valid): (Vec<u8>, &'static str, bool, bool) = match t.weighted(&[2, 3, 4, 3, 3, 3, 1]) {
+        0 => (enc.clone(), "a.valid", false, true),
+        1 => (flip_bits(&enc, t), "b.bit-flip", false, false),
+        2 => {
+            let (b, l) = nonreduced(&enc, &lay, p, bits, t);
+            (b, l, true, false)
+        },
+        3 => {
+            let l = t.idx(total);
+            (enc[..l].to_vec(), "g.truncated", false, false)
+        },
+        4 => (t.bytes(total), "h.uniform", false, false),
+        5 => (plausible(&lay, total, p, tw.prime.n, t), "h.plausible", false, false),
+        _ => (vec![if t.bool() { 0xff } else { 0 }; total], "h.constant", false, false),
+    };
+    let truncated = label == "g.truncated";
+    if !truncated {
+        let pad = t.idx(17);
+        input.extend(t.bytes(pad));
+    }
+    o.class(label);
+    o.nt(!valid);
+    o.show(|| format!("{}: {} flag bits {}: {}", name, label, fb, hex(&input)));
+    o.evals(4);
+    for c in [Compress::Yes, Compress::No] {
+        for val in [Validate::Yes, Validate::No] {
+            let mut rd = CountRead::new(&input);
+            let res: Result<F, SerializationError> = match fb {
+                0 => no_panic("deserialize", || F::deserialize_with_mode(&mut rd, c, val))?,
+                2 => no_panic("deserialize_with_flags", || F::deserialize_with_flags::<_, SWFlags>(&mut rd).map(|x| x.0))?,
+                _ => no_panic("deserialize_with_flags", || F::deserialize_with_flags::<_, HF<8>>(&mut rd).map(|x| x.0))?,
+            };
+            ensure!(rd.pos <= total, "read-past-size", "{} bytes consumed, advertised size {}", rd.pos, total);
+            match res {
+                Ok(x) => {
+                    o.class("ok");
+                    ensure!(x.canonical(), "field.not-below-modulus", "deserialized element has limbs >= p: input {}", hex(&input));
+                    ensure!(!must_err, format!("accepted.{}", label), "{}: input {} accepted as {:?}", label, hex(&input), x.to_o());
+                    if valid {
+                        ensure!(x.to_o() == e, "valid.decodes-differently", "{} -> {:?}", hex(&input), x.to_o());
+                    }
+                },
+                Err(err) => ensure!(!valid, "valid.rejected", "valid encoding {} rejected: {:?}", hex(&input), err),
+            }
+        }
+    }
+    Ok(())
+}
+
+fn field_rels<F: OracleRepr>(out: &mut Vec<Rel>, name: &'static str, tier: Tier, weight: u32) {
+    let cell: Arc<OnceLock<TowerOf<F>>> = Arc::new(OnceLock::new());
+    let d = F::extension_degree() as usize;
+    let n = (F::BasePrimeField::MODULUS_BIT_SIZE as usize + 63) / 64;
+    let words = 2 * d * (2 * n + 8) + 48;
+    let cases = (tier.pick(3000u32, 60000) / weight).max(100);
+    out.push(Rel::new(format!("field/{}", name), cases, words, move |t, o| field_hostile::<F>(cell.get_or_init(TowerOf::<F>::new), name, t, o)));
+}
+
+// ------------------------------------------------------------------------------------------
+// short Weierstrass
+// ------------------------------------------------------------------------------------------
+
+struct SwCtx<P: SWCurveConfig>
+where
+    P::BaseField: OracleRepr,
+{
+    tw: TowerOf<P::BaseField>,
+    r: BigUint,
+    toy: bool,
+    pool: Vec<Sw<P::BaseField>>,
+    /// on-curve points outside the prime-order subgroup (verified by reference multiplication)
+    outside: Vec<(Sw<P::BaseField>, &'static str)>,
+    /// x coordinates without a point (verified with the harness' Euler criterion)
+    noroot: Vec<P::BaseField>,
+    half: BigUint,
+    lay: [Vec<Seg>; 2],
+    size: [usize; 2],
+    /// toy curves: every point with subgroup membership, indexed by the integer x
+    all: Vec<(Sw<P::BaseField>, bool)>,
+}
+
+fn ci(c: Compress) -> usize {
+    if c == Compress::Yes {
+        0
+    } else {
+        1
+    }
+}
+
+fn f_u64<F: Field>(x: &F) -> u64 {
+    x.to_base_prime_field_elements().next().unwrap().into_bigint().as_ref()[0]
+}
+
+fn lift_sw<P: SWCurveConfig>(q: &Sw<P::BaseField>) -> SwProj<P> {
+    let one = P::BaseField::one();
+    sw_to_proj::<P>(q, &one, &one, &one)
+}
+
+impl<P: SWCurveConfig> SwCtx<P>
+where
+    P::BaseField: OracleRepr,
+{
+    fn insub(&self, q: &Sw<P::BaseField>) -> bool {
+        if self.toy {
+            sw_mul(&P::COEFF_A, q, &self.r) == Sw::Inf
+        } else {
+            sw_from_proj::<P>(&ref_mul(&lift_sw::<P>(q), &self.r)) == Sw::Inf
+        }
+    }
+    fn on_curve(q: &Sw<P::BaseField>) -> bool {
+        sw_on_curve(&P::COEFF_A, &P::COEFF_B, q)
+    }
+    fn rhs(x: &P::BaseField) -> P::BaseField {
+        x.square() * x + P::COEFF_A * x + P::COEFF_B
+    }
+
+    fn new(zcash: bool, toy: bool) -> Self {
+        let tw = TowerOf::<P::BaseField>::new();
+        let r = big(P::ScalarField::MODULUS.as_ref());
+        let h = big(P::COFACTOR);
+        let d = tw.t.degree();
+        let bits = tw.prime.bits;
+        let half = (field_order(&tw) - 1u32) >> 1;
+        let lay = if zcash { [zcash_layout(d, true), zcash_layout(d, false)] } else { [sw_layout(d, bits, true), sw_layout(d, bits, false)] };
+        let g = sw_from_affine::<P>(&P::GENERATOR);
+        let ga = P::GENERATOR;
+        let size = [ga.serialized_size(Compress::Yes), ga.serialized_size(Compress::No)];
+        let mut cx = SwCtx { tw, r: r.clone(), toy, pool: vec![g], outside: vec![], noroot: vec![], half, lay, size, all: vec![] };
+        assert!(Self::on_curve(&g) && cx.insub(&g), "generator");
+        let gp = lift_sw::<P>(&g);
+        for k in [2u64, 3, 0xffff_ffff_ffff_fff1] {
+            cx.pool.push(sw_from_proj::<P>(&ref_mul(&gp, &BigUint::from(k))));
+        }
+        cx.pool.push(sw_from_proj::<P>(&ref_mul(&gp, &((&r - 1u32) >> 1))));
+        cx.pool.push(sw_from_proj::<P>(&ref_mul(&gp, &(&r - 1u32))));
+        // x without a root / points from small x
+        let mut raw: Vec<Sw<P::BaseField>> = Vec::new();
+        for xi in 0u64..200 {
+            if cx.noroot.len() >= 3 && raw.len() >= 2 {
+                break;
+            }
+            let x = P::BaseField::from(xi);
+            if !is_square(&Self::rhs(&x), &cx.half) {
+                if cx.noroot.len() < 3 {
+                    cx.noroot.push(x);
+                }
+            } else if raw.len() < 2 {
+                if let Some(q) = SwAffine::<P>::get_point_from_x_unchecked(x, xi % 2 == 0) {
+                    let q = sw_from_affine::<P>(&q);
+                    if Self::on_curve(&q) {
+                        raw.push(q);
+                    }
+                }
+            }
+        }
+        if !h.is_one() {
+            let primes = small_prime_factors(&h);
+            for q in &raw {
+                if !cx.insub(q) {
+                    cx.outside.push((*q, "d.from-small-x"));
+                }
+                // r R has order dividing h
+                let tq = sw_from_proj::<P>(&ref_mul(&lift_sw::<P>(q), &r));
+                if tq != Sw::Inf && !cx.insub(&tq) {
+                    cx.outside.push((tq, "d.order-divides-h"));
+                    cx.outside.push((sw_add(&P::COEFF_A, &tq, &cx.pool[1]), "d.subgroup+torsion"));
+                    for l in primes.iter().take(2) {
+                        let e = &h / *l;
+                        let s = sw_from_proj::<P>(&ref_mul(&lift_sw::<P>(&tq), &e));
+                        if s != Sw::Inf && !cx.insub(&s) {
+                            cx.outside.push((s, "d.small-order"));
+                            cx.outside.push((sw_add(&P::COEFF_A, &s, &cx.pool[2]), "d.subgroup+small-order"));
+                        }
+                    }
+                }
+            }
+            for (q, _) in &cx.outside {
+                assert!(Self::on_curve(q));
+            }
+        }
+        if toy {
+            let pm = f_u64(&-P::BaseField::one()) + 1;
+            for xi in 0..pm {
+                let x = P::BaseField::from(xi);
+                let rhs = Self::rhs(&x);
+                for yi in 0..pm {
+                    let y = P::BaseField::from(yi);
+                    if y.square() == rhs {
+                        let q = Sw::Aff(x, y);
+                        let s = cx.insub(&q);
+                        cx.all.push((q, s));
+                    }
+                }
+            }
+        }
+        cx
+    }
+}
+
+/// run one byte string through Affine/Projective deserialization in one compression mode, both validation modes
+fn sw_run<P: SWCurveConfig>(cx: &SwCtx<P>, input: &[u8], c: Compress, ex: &Expect<Sw<P::BaseField>>, projective: bool, o: &mut Obs) -> R
+where
+    P::BaseField: OracleRepr,
+{
+    let size = cx.size[ci(c)];
+    for val in [Validate::Yes, Validate::No] {
+        let mut rd = CountRead::new(input);
+        let res: Result<(Sw<P::BaseField>, bool), SerializationError> = if projective {
+            no_panic("deserialize.projective", || SwProj::<P>::deserialize_with_mode(&mut rd, c, val))?.map(|q| (sw_from_proj::<P>(&q), q.x.canonical() && q.y.canonical() && q.z.canonical()))
+        } else {
+            no_panic("deserialize.affine", || SwAffine::<P>::deserialize_with_mode(&mut rd, c, val))?.map(|q| (sw_from_affine::<P>(&q), q.x.canonical() && q.y.canonical()))
+        };
+        let mn = format!("{}.{}", cname(c), vname(val));
+        ensure!(rd.pos <= size, format!("read-past-size.{}", cname(c)), "{}: {} bytes consumed, advertised size {}", mn, rd.pos, size);
+        match res {
+            Ok((q, canon)) => {
+                o.class(if val == Validate::Yes { "ok.checked" } else { "ok.unchecked" });
+                if val == Validate::Yes {
+                    ensure!(canon, format!("coordinates-not-reduced.{}", mn), "{}: input {} gives coordinates with limbs >= p", mn, hex(input));
+                    ensure!(
+                        !ex.must_err,
+                        format!("accepted.{}.{}", ex.label, mn),
+                        "{}: class {} input {} accepted as {:?}",
+                        mn,
+                        ex.label,
+                        hex(input),
+                        q
+                    );
+                    ensure!(SwCtx::<P>::on_curve(&q), format!("off-curve.{}", mn), "{}: input {} accepted as {:?} which does not satisfy the curve equation", mn, hex(input), q);
+                    ensure!(cx.insub(&q), format!("outside-subgroup.{}", mn), "{}: input {} accepted as {:?} but r*P != O", mn, hex(input), q);
+                }
+                if let Some(v) = &ex.value {
+                    ensure!(q == *v, format!("valid.decodes-differently.{}", mn), "{}: encoding {} of {:?} decodes to {:?}", mn, hex(input), v, q);
+                }
+            },
+            Err(err) => {
+                ensure!(ex.value.is_none(), format!("valid.rejected.{}", mn), "{}: valid encoding {} of {:?} rejected: {:?}", mn, hex(input), ex.value, err);
+            },
+        }
+    }
+    Ok(())
+}
+
+fn ser<T: CanonicalSerialize>(v: &T, c: Compress) -> Result<Vec<u8>, Fail> {
+    let mut b = Vec::new();
+    v.serialize_with_mode(&mut b, c).map_err(|e| Fail { sig: "serialize.err".into(), msg: format!("{:?}", e) })?;
+    Ok(b)
+}
+
+fn sw_hostile<P: SWCurveConfig>(cx: &SwCtx<P>, name: &str, t: &mut Tape<'_>, o: &mut Obs) -> R
+where
+    P::BaseField: OracleRepr,
+{
+    let a = P::COEFF_A;
+    let mut c = if t.bool() { Compress::Yes } else { Compress::No };
+    let projective = t.chance(1, 4);
+    // a valid point
+    let base: Sw<P::BaseField> = match t.weighted(&[1, 6, 2]) {
+        0 => Sw::Inf,
+        1 => {
+            let s = sw_add(&a, &cx.pool[t.idx(cx.pool.len())], &cx.pool[t.idx(cx.pool.len())]);
+            if t.bool() {
+                sw_neg(&s)
+            } else {
+                s
+            }
+        },
+        _ => cx.pool[t.idx(cx.pool.len())],
+    };
+    let p = cx.tw.prime.p.clone();
+    let bits = cx.tw.prime.bits;
+    let mut ex = Expect { value: None, must_err: false, label: "" };
+    let mut cls = t.weighted(&[2, 3, 2, 3, 4, 4, 3, 2, 3]);
+    if cls == 4 && cx.outside.is_empty() && P::cofactor_is_one() {
+        cls = 5;
+    }
+    let mut input: Vec<u8> = match cls {
+        0 => {
+            ex.value = Some(base);
+            ex.label = "a.valid";
+            ser(&sw_to_affine::<P>(&base), c)?
+        },
+        1 => {
+            ex.label = "b.bit-flip";
+            flip_bits(&ser(&sw_to_affine::<P>(&base), c)?, t)
+        },
+        2 => {
+            ex.label = "b.flags";
+            mutate_flags(&ser(&sw_to_affine::<P>(&base), c)?, &cx.lay[ci(c)], t)
+        },
+        3 => {
+            // x without a root, compressed
+            c = Compress::Yes;
+            let x = if t.chance(1, 2) && !cx.noroot.is_empty() {
+                cx.noroot[t.idx(cx.noroot.len())]
+            } else {
+                let (e, _) = edge_elem(t, &cx.tw.t, &cx.tw.prime);
+                let mut x = P::BaseField::from_o(&e);
+                let mut found = None;
+                for _ in 0..3 {
+                    if !is_square(&SwCtx::<P>::rhs(&x), &cx.half) {
+                        found = Some(x);
+                        break;
+                    }
+                    x += P::BaseField::one();
+                }
+                found.unwrap_or(cx.noroot[0])
+            };
+            ex.label = "c.no-root";
+            ex.must_err = true;
+            let y = if t.bool() { P::BaseField::one() } else { -P::BaseField::one() };
+            ser(&SwAffine::<P>::new_unchecked(x, y), c)?
+        },
+        4 => {
+            // on the curve, outside the subgroup
+            let q = if !cx.outside.is_empty() && t.chance(2, 3) {
+                let (q, l) = cx.outside[t.idx(cx.outside.len())];
+                ex.label = l;
+                Some(if t.bool() { sw_neg(&q) } else { q })
+            } else {
+                let (e, _) = edge_elem(t, &cx.tw.t, &cx.tw.prime);
+                let mut x = P::BaseField::from_o(&e);
+                let mut found = None;
+                for _ in 0..8 {
+                    if let Some(q) = SwAffine::<P>::get_point_from_x_unchecked(x, t.bool()) {
+                        let q = sw_from_affine::<P>(&q);
+                        if SwCtx::<P>::on_curve(&q) && !cx.insub(&q) {
+                            found = Some(q);
+                        }
+                        break;
+                    }
+                    x += P::BaseField::one();
+                }
+                ex.label = "d.from-x";
+                found
+            };
+            match q {
+                Some(q) => {
+                    ex.must_err = true;
+                    ser(&sw_to_affine::<P>(&q), c)?
+                },
+                None => {
+                    ex.label = "a.valid";
+                    ex.value = Some(base);
+                    ser(&sw_to_affine::<P>(&base), c)?
+                },
+            }
+        },
+        5 => {
+            // off the curve, uncompressed
+            c = Compress::No;
+            let (bx, by) = match base {
+                Sw::Aff(x, y) => (x, y),
+                Sw::Inf => match cx.pool[0] {
+                    Sw::Aff(x, y) => (x, y),
+                    _ => unreachable!(),
+                },
+            };
+            let one = P::BaseField::one();
+            let (x, y, l): (P::BaseField, P::BaseField, &'static str) = match t.weighted(&[4, 2, 2, 2]) {
+                0 => {
+                    // image on the isomorphic curve y^2 = x^3 + a t^4 x + b t^6, t in the prime subfield
+                    let tv = match t.below(3) {
+                        0 => P::BaseField::from(2u64),
+                        1 => P::BaseField::from(t.range(2, 1 << 16)),
+                        _ => {
+                            let v = vh_core::gen::big_below(t, &p);
+                            P::BaseField::from_base_prime_field(<<P::BaseField as Field>::BasePrimeField as From<BigUint>>::from(v))
+                        },
+                    };
+                    let t2 = tv.square();
+                    (bx * t2, by * t2 * tv, "e.isomorphic-curve")
+                },
+                1 => (bx, by + one, "e.y+1"),
+                2 => (bx + one, by, "e.x+1"),
+                _ => {
+                    let (e1, _) = edge_elem(t, &cx.tw.t, &cx.tw.prime);
+                    let (e2, _) = edge_elem(t, &cx.tw.t, &cx.tw.prime);
+                    (P::BaseField::from_o(&e1), P::BaseField::from_o(&e2), "e.random-xy")
+                },
+            };
+            let q = Sw::Aff(x, y);
+            if SwCtx::<P>::on_curve(&q) {
+                ex.label = "e.happens-to-be-on-curve";
+            } else {
+                ex.label = l;
+                ex.must_err = true;
+            }
+            ser(&SwAffine::<P>::new_unchecked(x, y), c)?
+        },
+        6 => {
+            let enc = ser(&sw_to_affine::<P>(&base), c)?;
+            let (b, l) = nonreduced(&enc, &cx.lay[ci(c)], &p, bits, t);
+            ex.label = if l == "non-reduced.plus-p" { "f.non-reduced.plus-p" } else { "f.non-reduced.high-bit" };
+            ex.must_err = true;
+            b
+        },
+        7 => {
+            let enc = ser(&sw_to_affine::<P>(&base), c)?;
+            let l = t.idx(enc.len());
+            ex.label = "g.truncated";
+            enc[..l].to_vec()
+        },
+        _ => {
+            let total = cx.size[ci(c)];
+            match t.below(3) {
+                0 => {
+                    ex.label = "h.uniform";
+                    t.bytes(total)
+                },
+                1 => {
+                    ex.label = "h.plausible";
+                    plausible(&cx.lay[ci(c)], total, &p, cx.tw.prime.n, t)
+                },
+                _ => {
+                    ex.label = "h.constant";
+                    vec![if t.bool() { 0xff } else { 0 }; total]
+                },
+            }
+        },
+    };
+    ensure!(
+        layout_len(&cx.lay[ci(c)]) == cx.size[ci(c)],
+        "size.layout",
+        "serialized_size({}) = {}, layout expects {}",
+        cname(c),
+        cx.size[ci(c)],
+        layout_len(&cx.lay[ci(c)])
+    );
+    if ex.label != "g.truncated" {
+        let pad = t.idx(17);
+        input.extend(t.bytes(pad));
+    }
+    o.class(ex.label);
+    o.class(cname(c));
+    o.nt(ex.label != "a.valid");
+    o.show(|| format!("{}: {} {} {}", name, ex.label, cname(c), hex(&input)));
+    o.evals(2);
+    sw_run::<P>(cx, &input, c, &ex, projective, o)
+}
+
+/// toy curves over a prime field: expectation for an arbitrary byte string, decoded with the harness' layout
+fn sw_toy_expect<P: SWCurveConfig>(cx: &SwCtx<P>, input: &[u8], c: Compress) -> Expect<Sw<P::BaseField>>
+where
+    P::BaseField: OracleRepr,
+{
+    let lay = &cx.lay[ci(c)];
+    let p = &cx.tw.prime.p;
+    let mut ex = Expect { value: None, must_err: false, label: "exhaustive" };
+    let fl = input[input.len() - 1] & 0xc0;
+    if fl == 0xc0 || fl == 0x40 {
+        ex.label = "exhaustive.infinity-or-both-flags";
+        return ex;
+    }
+    let ints: Vec<BigUint> = lay.iter().map(|s| s.get(input)).collect();
+    if ints.iter().any(|n| n >= p) {
+        ex.must_err = true;
+        ex.label = "exhaustive.non-reduced";
+        return ex;
+    }
+    let x = ints[0].to_u64_digits().first().copied().unwrap_or(0);
+    let fx = P::BaseField::from(x);
+    if c == Compress::Yes {
+        let pts: Vec<&(Sw<P::BaseField>, bool)> = cx.all.iter().filter(|(q, _)| matches!(q, Sw::Aff(qx, _) if *qx == fx)).collect();
+        if pts.is_empty() {
+            ex.must_err = true;
+            ex.label = "exhaustive.no-root";
+        } else if !pts[0].1 {
+            ex.must_err = true;
+            ex.label = "exhaustive.outside-subgroup";
+        } else {
+            ex.label = "exhaustive.subgroup-point";
+        }
+    } else {
+        let y = ints[1].to_u64_digits().first().copied().unwrap_or(0);
+        let q = Sw::Aff(fx, P::BaseField::from(y));
+        match cx.all.iter().find(|(z, _)| *z == q) {
+            None => {
+                ex.must_err = true;
+                ex.label = "exhaustive.off-curve";
+            },
+            Some((_, false)) => {
+                ex.must_err = true;
+                ex.label = "exhaustive.outside-subgroup";
+            },
+            Some((_, true)) => {
+                ex.label = "exhaustive.subgroup-point";
+                ex.value = Some(q);
+            },
+        }
+    }
+    ex
+}
+
+fn sw_toy_bytes<P: SWCurveConfig>(cx: &SwCtx<P>, name: &str, c: Compress, t: &mut Tape<'_>, o: &mut Obs) -> R
+where
+    P::BaseField: OracleRepr,
+{
+    let n = cx.size[ci(c)];
+    let input: Vec<u8> = (0..n).map(|_| t.below(256) as u8).collect();
+    let ex = sw_toy_expect::<P>(cx, &input, c);
+    o.class(ex.label);
+    o.nt(true);
+    o.show(|| format!("{}: {} {} {}", name, ex.label, cname(c), hex(&input)));
+    o.evals(2);
+    sw_run::<P>(cx, &input, c, &ex, false, o)
+}
+
+fn sw_rels<P: SWCurveConfig>(out: &mut Vec<Rel>, name: &'static str, tier: Tier, weight: u32, zcash: bool, toy: bool)
+where
+    P::BaseField: OracleRepr,
+{
+    let cell: Arc<OnceLock<SwCtx<P>>> = Arc::new(OnceLock::new());
+    let d = P::BaseField::extension_degree() as usize;
+    let n = (<P::BaseField as Field>::BasePrimeField::MODULUS_BIT_SIZE as usize + 63) / 64;
+    let words = 4 * d * (2 * n + 8) + 64;
+    let cases = (tier.pick(1600u32, 32000) / weight).max(40);
+    let c = cell.clone();
+    out.push(Rel::new(format!("hostile/{}", name), cases, words, move |t, o| sw_hostile::<P>(c.get_or_init(|| SwCtx::<P>::new(zcash, toy)), name, t, o)));
+    if toy {
+        let ga = P::GENERATOR;
+        let sc = ga.serialized_size(Compress::Yes);
+        let su = ga.serialized_size(Compress::No);
+        if sc == 2 {
+            let c = cell.clone();
+            out.push(
+                Rel::new(format!("all-bytes.compressed/{}", name), 0, 2, move |t, o| {
+                    sw_toy_bytes::<P>(c.get_or_init(|| SwCtx::<P>::new(zcash, true)), name, Compress::Yes, t, o)
+                })
+                .exhaustive(|| Box::new((0..256u64).flat_map(|a| (0..256u64).map(move |b| vec![a, b])))),
+            );
+        }
+        if su == 3 {
+            let c = cell.clone();
+            const LAST_Q: &[u64] = &[0x00, 0x40, 0x80, 0xc0, 0x01];
+            const LAST_T: &[u64] = &[0x00, 0x40, 0x80, 0xc0, 0x01, 0x41, 0x81, 0xc1, 0x20, 0xa0, 0x3f, 0xbf];
+            let last: &'static [u64] = tier.pick(LAST_Q, LAST_T);
+            out.push(
+                Rel::new(format!("all-bytes.uncompressed/{}", name), 0, 3, move |t, o| {
+                    sw_toy_bytes::<P>(c.get_or_init(|| SwCtx::<P>::new(zcash, true)), name, Compress::No, t, o)
+                })
+                .exhaustive(move || Box::new((0..256u64).flat_map(move |a| (0..256u64).flat_map(move |b| last.iter().map(move |l| vec![a, b, *l]))))),
+            );
+        }
+    }
+}
+
+// ------------------------------------------------------------------------------------------
+// twisted Edwards
+// ------------------------------------------------------------------------------------------
+
+struct TeCtx<P: TECurveConfig>
+where
+    P::BaseField: OracleRepr,
+{
+    tw: TowerOf<P::BaseField>,
+    r: BigUint,
+    toy: bool,
+    pool: Vec<Te<P::BaseField>>,
+    outside: Vec<(Te<P::BaseField>, &'static str)>,
+    /// y coordinates without a point
+    noroot: Vec<P::BaseField>,
+    half: BigUint,
+    lay: [Vec<Seg>; 2],
+    size: [usize; 2],
+    all: Vec<(Te<P::BaseField>, bool)>,
+}
+
+fn lift_te<P: TECurveConfig>(q: &Te<P::BaseField>) -> TeProj<P> {
+    te_to_proj::<P>(q, &P::BaseField::one())
+}
+
+impl<P: TECurveConfig> TeCtx<P>
+where
+    P::BaseField: OracleRepr,
+{
+    fn a() -> P::BaseField {
+        <P as TECurveConfig>::COEFF_A
+    }
+    fn d() -> P::BaseField {
+        <P as TECurveConfig>::COEFF_D
+    }
+    fn on_curve(q: &Te<P::BaseField>) -> bool {
+        te_on_curve(&Self::a(), &Self::d(), q)
+    }
+    /// r q = (0, 1)?  Toy curves and context construction: affine oracle law (an undefined addition means the
+    /// multiple left the affine curve, so q is not in the odd-order subgroup). Otherwise double-and-add over the
+    /// extended coordinates, decoded through raw coordinates.
+    fn insub_exact(&self, q: &Te<P::BaseField>) -> bool {
+        matches!(te_mul(&Self::a(), &Self::d(), q, &self.r), Some(z) if z == te_identity())
+    }
+    fn insub(&self, q: &Te<P::BaseField>) -> bool {
+        if self.toy {
+            return self.insub_exact(q);
+        }
+        let m = ref_mul(&lift_te::<P>(q), &self.r);
+        matches!(te_from_proj::<P>(&m), Some((z, _)) if z == te_identity())
+    }
+    /// does an x exist for this y (harness evaluation of x^2 = (1 - y^2) / (a - d y^2))
+    fn has_x(&self, y: &P::BaseField) -> bool {
+        let y2 = y.square();
+        let den = Self::a() - Self::d() * y2;
+        match den.inverse() {
+            None => false,
+            Some(di) => is_square(&((P::BaseField::one() - y2) * di), &self.half),
+        }
+    }
+
+    fn new(toy: bool) -> Self {
+        let tw = TowerOf::<P::BaseField>::new();
+        let r = big(P::ScalarField::MODULUS.as_ref());
+        let h = big(P::COFACTOR);
+        let d = tw.t.degree();
+        let bits = tw.prime.bits;
+        let half = (field_order(&tw) - 1u32) >> 1;
+        let lay = [te_layout(d, bits, true), te_layout(d, bits, false)];
+        let ga = <P as TECurveConfig>::GENERATOR;
+        let g = te_from_affine::<P>(&ga);
+        let size = [ga.serialized_size(Compress::Yes), ga.serialized_size(Compress::No)];
+        let mut cx = TeCtx { tw, r: r.clone(), toy, pool: vec![g], outside: vec![], noroot: vec![], half, lay, size, all: vec![] };
+        assert!(Self::on_curve(&g) && cx.insub_exact(&g), "generator");
+        let gp = lift_te::<P>(&g);
+        let dec = |q: &TeProj<P>| te_from_proj::<P>(q).expect("Z != 0").0;
+        for k in [2u64, 3, 0xffff_ffff_ffff_fff1] {
+            cx.pool.push(dec(&ref_mul(&gp, &BigUint::from(k))));
+        }
+        cx.pool.push(dec(&ref_mul(&gp, &((&r - 1u32) >> 1))));
+        cx.pool.push(dec(&ref_mul(&gp, &(&r - 1u32))));
+        for q in &cx.pool {
+            assert!(Self::on_curve(q));
+        }
+        let one = P::BaseField::one();
+        let zero = P::BaseField::zero();
+        cx.outside.push((Te(zero, -one), "d.order-2"));
+        if let Some(x) = Self::a().inverse().and_then(|ai| ai.sqrt()) {
+            if Self::on_curve(&Te(x, zero)) {
+                cx.outside.push((Te(x, zero), "d.order-4"));
+            }
+        }
+        let mut raw: Vec<Te<P::BaseField>> = Vec::new();
+        for yi in 2u64..200 {
+            if cx.noroot.len() >= 3 && raw.len() >= 2 {
+                break;
+            }
+            let y = P::BaseField::from(yi);
+            if !cx.has_x(&y) {
+                if cx.noroot.len() < 3 {
+                    cx.noroot.push(y);
+                }
+            } else if raw.len() < 2 {
+                if let Some(q) = TeAffine::<P>::get_point_from_y_unchecked(y, yi % 2 == 0) {
+                    let q = te_from_affine::<P>(&q);
+                    if Self::on_curve(&q) {
+                        raw.push(q);
+                    }
+                }
+            }
+        }
+        let (a, dd) = (Self::a(), Self::d());
+        let primes = small_prime_factors(&h);
+        for q in &raw {
+            if !cx.insub_exact(q) {
+                cx.outside.push((*q, "d.from-small-y"));
+            }
+            if let Some(tq) = te_mul(&a, &dd, q, &r) {
+                if tq != te_identity() && !cx.insub_exact(&tq) {
+                    cx.outside.push((tq, "d.order-divides-h"));
+                    if let Some(s) = te_add(&a, &dd, &tq, &cx.pool[1]) {
+                        cx.outside.push((s, "d.subgroup+torsion"));
+                    }
+                    for l in primes.iter().take(2) {
+                        if let Some(s) = te_mul(&a, &dd, &tq, &(&h / *l)) {
+                            if s != te_identity() && !cx.insub_exact(&s) {
+                                cx.outside.push((s, "d.small-order"));
+                            }
+                        }
+                    }
+                }
+            }
+        }
+        for (q, _) in &cx.outside {
+            assert!(Self::on_curve(q) && !cx.insub_exact(q));
+        }
+        if toy {
+            let pm = f_u64(&-P::BaseField::one()) + 1;
+            for xi in 0..pm {
+                for yi in 0..pm {
+                    let q = Te(P::BaseField::from(xi), P::BaseField::from(yi));
+                    if Self::on_curve(&q) {
+                        let s = cx.insub_exact(&q);
+                        cx.all.push((q, s));
+                    }
+                }
+            }
+        }
+        cx
+    }
+}
+
+fn te_run<P: TECurveConfig>(cx: &TeCtx<P>, input: &[u8], c: Compress, ex: &Expect<Te<P::BaseField>>, projective: bool, o: &mut Obs) -> R
+where
+    P::BaseField: OracleRepr,
+{
+    let size = cx.size[ci(c)];
+    for val in [Validate::Yes, Validate::No] {
+        let mut rd = CountRead::new(input);
+        let mn = format!("{}.{}", cname(c), vname(val));
+        let res: Result<(Te<P::BaseField>, bool), SerializationError> = if projective {
+            let r = no_panic("deserialize.projective", || TeProj::<P>::deserialize_with_mode(&mut rd, c, val))?;
+            match r {
+                Ok(q) => match te_from_proj::<P>(&q) {
+                    Some((z, tok)) => Ok((z, tok && q.x.canonical() && q.y.canonical() && q.z.canonical() && q.t.canonical())),
+                    None => return fail(format!("projective.z=0.{}", mn), format!("{}: input {} gives Z = 0", mn, hex(input))),
+                },
+                Err(e) => Err(e),
+            }
+        } else {
+            no_panic("deserialize.affine", || TeAffine::<P>::deserialize_with_mode(&mut rd, c, val))?.map(|q| (te_from_affine::<P>(&q), q.x.canonical() && q.y.canonical()))
+        };
+        ensure!(rd.pos <= size, format!("read-past-size.{}", cname(c)), "{}: {} bytes consumed, advertised size {}", mn, rd.pos, size);
+        match res {
+            Ok((q, canon)) => {
+                o.class(if val == Validate::Yes { "ok.checked" } else { "ok.unchecked" });
+                if val == Validate::Yes {
+                    ensure!(canon, format!("coordinates-not-reduced.{}", mn), "{}: input {} gives non-reduced or inconsistent coordinates", mn, hex(input));
+                    ensure!(
+                        !ex.must_err,
+                        format!("accepted.{}.{}", ex.label, mn),
+                        "{}: class {} input {} accepted as {:?}",
+                        mn,
+                        ex.label,
+                        hex(input),
+                        q
+                    );
+                    ensure!(TeCtx::<P>::on_curve(&q), format!("off-curve.{}", mn), "{}: input {} accepted as {:?} which does not satisfy the curve equation", mn, hex(input), q);
+                    ensure!(cx.insub(&q), format!("outside-subgroup.{}", mn), "{}: input {} accepted as {:?} but r*P != O", mn, hex(input), q);
+                }
+                if let Some(v) = &ex.value {
+                    ensure!(q == *v, format!("valid.decodes-differently.{}", mn), "{}: encoding {} of {:?} decodes to {:?}", mn, hex(input), v, q);
+                }
+            },
+            Err(err) => {
+                ensure!(ex.value.is_none(), format!("valid.rejected.{}", mn), "{}: valid encoding {} of {:?} rejected: {:?}", mn, hex(input), ex.value, err);
+            },
+        }
+    }
+    Ok(())
+}
+
+fn te_hostile<P: TECurveConfig>(cx: &TeCtx<P>, name: &str, t: &mut Tape<'_>, o: &mut Obs) -> R
+where
+    P::BaseField: OracleRepr,
+{
+    let (a, d) = (TeCtx::<P>::a(), TeCtx::<P>::d());
+    let mut c = if t.bool() { Compress::Yes } else { Compress::No };
+    let projective = t.chance(1, 4);
+    let base: Te<P::BaseField> = match t.weighted(&[1, 6, 2]) {
+        0 => te_identity(),
+        1 => {
+            let s = te_add(&a, &d, &cx.pool[t.idx(cx.pool.len())], &cx.pool[t.idx(cx.pool.len())]).unwrap_or(cx.pool[0]);
+            if t.bool() {
+                te_neg(&s)
+            } else {
+                s
+            }
+        },
+        _ => cx.pool[t.idx(cx.pool.len())],
+    };
+    let p = cx.tw.prime.p.clone();
+    let bits = cx.tw.prime.bits;
+    let mut ex = Expect { value: None, must_err: false, label: "" };
+    let cls = t.weighted(&[2, 3, 2, 3, 4, 4, 3, 2, 3]);
+    let mut input: Vec<u8> = match cls {
+        0 => {
+            ex.value = Some(base);
+            ex.label = "a.valid";
+            ser(&te_to_affine::<P>(&base), c)?
+        },
+        1 => {
+            ex.label = "b.bit-flip";
+            flip_bits(&ser(&te_to_affine::<P>(&base), c)?, t)
+        },
+        2 => {
+            ex.label = "b.flags";
+            mutate_flags(&ser(&te_to_affine::<P>(&base), c)?, &cx.lay[ci(c)], t)
+        },
+        3 => {
+            c = Compress::Yes;
+            let y = if t.chance(1, 2) && !cx.noroot.is_empty() {
+                cx.noroot[t.idx(cx.noroot.len())]
+            } else {
+                let (e, _) = edge_elem(t, &cx.tw.t, &cx.tw.prime);
+                let mut y = P::BaseField::from_o(&e);
+                let mut found = None;
+                for _ in 0..3 {
+                    if !cx.has_x(&y) {
+                        found = Some(y);
+                        break;
+                    }
+                    y += P::BaseField::one();
+                }
+                found.unwrap_or(cx.noroot[0])
+            };
+            ex.label = "c.no-root";
+            ex.must_err = true;
+            let x = if t.bool() { P::BaseField::one() } else { -P::BaseField::one() };
+            ser(&TeAffine::<P>::new_unchecked(x, y), c)?
+        },
+        4 => {
+            let q = if t.chance(2, 3) {
+                let (q, l) = cx.outside[t.idx(cx.outside.len())];
+                ex.label = l;
+                Some(if t.bool() { te_neg(&q) } else { q })
+            } else {
+                let (e, _) = edge_elem(t, &cx.tw.t, &cx.tw.prime);
+                let mut y = P::BaseField::from_o(&e);
+                let mut found = None;
+                for _ in 0..8 {
+                    if let Some(q) = TeAffine::<P>::get_point_from_y_unchecked(y, t.bool()) {
+                        let q = te_from_affine::<P>(&q);
+                        if TeCtx::<P>::on_curve(&q) && !cx.insub(&q) {
+                            found = Some(q);
+                        }
+                        break;
+                    }
+                    y += P::BaseField::one();
+                }
+                ex.label = "d.from-y";
+                found
+            };
+            match q {
+                Some(q) => {
+                    ex.must_err = true;
+                    ser(&te_to_affine::<P>(&q), c)?
+                },
+                None => {
+                    ex.label = "a.valid";
+                    ex.value = Some(base);
+                    ser(&te_to_affine::<P>(&base), c)?
+                },
+            }
+        },
+        5 => {
+            c = Compress::No;
+            let one = P::BaseField::one();
+            let (x, y, l): (P::BaseField, P::BaseField, &'static str) = match t.weighted(&[2, 2, 2, 2]) {
+                0 => (base.0, base.1 + one, "e.y+1"),
+                1 => (base.0 + one, base.1, "e.x+1"),
+                2 => (base.1, base.0, "e.swapped"),
+                _ => {
+                    let (e1, _) = edge_elem(t, &cx.tw.t, &cx.tw.prime);
+                    let (e2, _) = edge_elem(t, &cx.tw.t, &cx.tw.prime);
+                    (P::BaseField::from_o(&e1), P::BaseField::from_o(&e2), "e.random-xy")
+                },
+            };
+            let q = Te(x, y);
+            if TeCtx::<P>::on_curve(&q) {
+                ex.label = "e.happens-to-be-on-curve";
+            } else {
+                ex.label = l;
+                ex.must_err = true;
+            }
+            ser(&TeAffine::<P>::new_unchecked(x, y), c)?
+        },
+        6 => {
+            let enc = ser(&te_to_affine::<P>(&base), c)?;
+            let (b, l) = nonreduced(&enc, &cx.lay[ci(c)], &p, bits, t);
+            ex.label = if l == "non-reduced.plus-p" { "f.non-reduced.plus-p" } else { "f.non-reduced.high-bit" };
+            ex.must_err = true;
+            b
+        },
+        7 => {
+            let enc = ser(&te_to_affine::<P>(&base), c)?;
+            let l = t.idx(enc.len());
+            ex.label = "g.truncated";
+            enc[..l].to_vec()
+        },
+        _ => {
+            let total = cx.size[ci(c)];
+            match t.below(3) {
+                0 => {
+                    ex.label = "h.uniform";
+                    t.bytes(total)
+                },
+                1 => {
+                    ex.label = "h.plausible";
+                    plausible(&cx.lay[ci(c)], total, &p, cx.tw.prime.n, t)
+                },
+                _ => {
+                    ex.label = "h.constant";
+                    vec![if t.bool() { 0xff } else { 0 }; total]
+                },
+            }
+        },
+    };
+    ensure!(
+        layout_len(&cx.lay[ci(c)]) == cx.size[ci(c)],
+        "size.layout",
+        "serialized_size({}) = {}, layout expects {}",
+        cname(c),
+        cx.size[ci(c)],
+        layout_len(&cx.lay[ci(c)])
+    );
+    if ex.label != "g.truncated" {
+        let pad = t.idx(17);
+        input.extend(t.bytes(pad));
+    }
+    o.class(ex.label);
+    o.class(cname(c));
+    o.nt(ex.label != "a.valid");
+    o.show(|| format!("{}: {} {} {}", name, ex.label, cname(c), hex(&input)));
+    o.evals(2);
+    te_run::<P>(cx, &input, c, &ex, projective, o)
+}
+
+fn te_toy_expect<P: TECurveConfig>(cx: &TeCtx<P>, input: &[u8], c: Compress) -> Expect<Te<P::BaseField>>
+where
+    P::BaseField: OracleRepr,
+{
+    let lay = &cx.lay[ci(c)];
+    let p = &cx.tw.prime.p;
+    let mut ex = Expect { value: None, must_err: false, label: "exhaustive" };
+    let ints: Vec<BigUint> = lay.iter().map(|s| s.get(input)).collect();
+    if ints.iter().any(|n| n >= p) {
+        ex.must_err = true;
+        ex.label = "exhaustive.non-reduced";
+        return ex;
+    }
+    let v0 = P::BaseField::from(ints[0].to_u64_digits().first().copied().unwrap_or(0));
+    if c == Compress::Yes {
+        let pts: Vec<&(Te<P::BaseField>, bool)> = cx.all.iter().filter(|(q, _)| q.1 == v0).collect();
+        if pts.is_empty() {
+            ex.must_err = true;
+            ex.label = "exhaustive.no-root";
+        } else if !pts[0].1 {
+            ex.must_err = true;
+            ex.label = "exhaustive.outside-subgroup";
+        } else {
+            ex.label = "exhaustive.subgroup-point";
+        }
+    } else {
+        let q = Te(v0, P::BaseField::from(ints[1].to_u64_digits().first().copied().unwrap_or(0)));
+        match cx.all.iter().find(|(z, _)| *z == q) {
+            None => {
+                ex.must_err = true;
+                ex.label = "exhaustive.off-curve";
+            },
+            Some((_, false)) => {
+                ex.must_err = true;
+                ex.label = "exhaustive.outside-subgroup";
+            },
+            Some((_, true)) => {
+                ex.label = "exhaustive.subgroup-point";
+                ex.value = Some(q);
+            },
+        }
+    }
+    ex
+}
+
+fn te_toy_bytes<P: TECurveConfig>(cx: &TeCtx<P>, name: &str, c: Compress, t: &mut Tape<'_>, o: &mut Obs) -> R
+where
+    P::BaseField: OracleRepr,
+{
+    let n = cx.size[ci(c)];
+    let input: Vec<u8> = (0..n).map(|_| t.below(256) as u8).collect();
+    let ex = te_toy_expect::<P>(cx, &input, c);
+    o.class(ex.label);
+    o.nt(true);
+    o.show(|| format!("{}: {} {} {}", name, ex.label, cname(c), hex(&input)));
+    o.evals(2);
+    te_run::<P>(cx, &input, c, &ex, false, o)
+}
+
+fn te_rels<P: TECurveConfig>(out: &mut Vec<Rel>, name: &'static str, tier: Tier, weight: u32, toy: bool)
+where
+    P::BaseField: OracleRepr,
+{
+    let cell: Arc<OnceLock<TeCtx<P>>> = Arc::new(OnceLock::new());
+    let d = P::BaseField::extension_degree() as usize;
+    let n = (<P::BaseField as Field>::BasePrimeField::MODULUS_BIT_SIZE as usize + 63) / 64;
+    let words = 4 * d * (2 * n + 8) + 64;
+    let cases = (tier.pick(1600u32, 32000) / weight).max(40);
+    let c = cell.clone();
+    out.push(Rel::new(format!("hostile/{}", name), cases, words, move |t, o| te_hostile::<P>(c.get_or_init(|| TeCtx::<P>::new(toy)), name, t, o)));
+    if toy {
+        let ga = <P as TECurveConfig>::GENERATOR;
+        for (mode, sz) in [(Compress::Yes, ga.serialized_size(Compress::Yes)), (Compress::No, ga.serialized_size(Compress::No))] {
+            if sz > 2 {
+                continue;
+            }
+            let c = cell.clone();
+            out.push(
+                Rel::new(format!("all-bytes.{}/{}", cname(mode), name), 0, 2, move |t, o| te_toy_bytes::<P>(c.get_or_init(|| TeCtx::<P>::new(true)), name, mode, t, o)).exhaustive(
+                    move || {
+                        if sz == 1 {
+                            Box::new((0..256u64).map(|a| vec![a]))
+                        } else {
+                            Box::new((0..256u64).flat_map(|a| (0..256u64).map(move |b| vec![a, b])))
+                        }
+                    },
+                ),
+            );
+        }
+    }
+}
+
+// ------------------------------------------------------------------------------------------
+// pairing outputs
+// ------------------------------------------------------------------------------------------
+
+struct GtCtx<E: Pairing>
+where
+    E::TargetField: OracleRepr,
+{
+    tw: TowerOf<E::TargetField>,
+    r: BigUint,
+    /// powers g, g^2, g^3, g^(2^64-15), g^(r-1) of g = e(G1, G2)
+    pool: Vec<E::TargetField>,
+    lay: Vec<Seg>,
+    size: usize,
+}
+
+impl<E: Pairing> GtCtx<E>
+where
+    E::TargetField: OracleRepr,
+{
+    fn new() -> Self {
+        let tw = TowerOf::<E::TargetField>::new();
+        let r = big(E::ScalarField::MODULUS.as_ref());
+        let g = E::pairing(E::G1Affine::generator(), E::G2Affine::generator()).0;
+        assert!(!g.is_one() && ref_pow(&g, &r).is_one(), "e(G1,G2) must have order r");
+        let mut pool = vec![g];
+        for k in [2u64, 3, 0xffff_ffff_ffff_fff1] {
+            pool.push(ref_pow(&g, &BigUint::from(k)));
+        }
+        pool.push(ref_pow(&g, &(&r - 1u32)));
+        let lay = field_layout(0, tw.t.degree(), tw.prime.bits, 0);
+        let size = PairingOutput::<E>(g).serialized_size(Compress::Yes);
+        GtCtx { tw, r, pool, lay, size }
+    }
+}
+
+fn gt_hostile<E: Pairing>(cx: &GtCtx<E>, name: &str, t: &mut Tape<'_>, o: &mut Obs) -> R
+where
+    E::TargetField: OracleRepr,
+{
+    let p = cx.tw.prime.p.clone();
+    let bits = cx.tw.prime.bits;
+    ensure!(layout_len(&cx.lay) == cx.size, "size.layout", "serialized_size = {}, layout expects {}", cx.size, layout_len(&cx.lay));
+    let base = cx.pool[t.idx(cx.pool.len())] * cx.pool[t.idx(cx.pool.len())];
+    let one = E::TargetField::one();
+    let enc_of = |f: &E::TargetField| ser(&PairingOutput::<E>(*f), Compress::Yes);
+    // (element, label); membership is decided below by the reference power
+    let (mut input, label, elem): (Vec<u8>, &'static str, Option<E::TargetField>) = match t.weighted(&[3, 1, 2, 2, 2, 1, 2, 3, 2, 3]) {
+        0 => (enc_of(&base)?, "a.valid", Some(base)),
+        1 => (enc_of(&one)?, "a.identity", Some(one)),
+        2 => {
+            let f = -base;
+            (enc_of(&f)?, "d.minus-valid", Some(f))
+        },
+        3 => {
+            // valid element times an element of the prime subfield
+            let c = E::TargetField::from(t.range(2, 1 << 16));
+            let f = base * c;
+            (enc_of(&f)?, "d.valid-times-subfield", Some(f))
+        },
+        4 => {
+            let (e, _) = edge_elem(t, &cx.tw.t, &cx.tw.prime);
+            let f = E::TargetField::from_o(&e);
+            (enc_of(&f)?, "d.arbitrary-element", Some(f))
+        },
+        5 => {
+            let f = E::TargetField::zero();
+            (enc_of(&f)?, "d.zero", Some(f))
+        },
+        6 => (flip_bits(&enc_of(&base)?, t), "b.bit-flip", None),
+        7 => {
+            let (b, l) = nonreduced(&enc_of(&base)?, &cx.lay, &p, bits, t);
+            (b, if l == "non-reduced.plus-p" { "f.non-reduced.plus-p" } else { "f.non-reduced.high-bit" }, None)
+        },
+        8 => {
+            let e = enc_of(&base)?;
+            let l = t.idx(e.len());
+            (e[..l].to_vec(), "g.truncated", None)
+        },
+        _ => (plausible(&cx.lay, cx.size, &p, cx.tw.prime.n, t), "h.plausible", None),
+    };
+    let in_gt = elem.map(|f| ref_pow(&f, &cx.r).is_one());
+    let must_err = in_gt == Some(false) || label.starts_with("f.");
+    if label != "g.truncated" {
+        let pad = t.idx(17);
+        input.extend(t.bytes(pad));
+    }
+    o.class(label);
+    o.class_if(in_gt == Some(true), "element-of-order-dividing-r");
+    o.nt(!label.starts_with("a."));
+    o.show(|| format!("{}: {} {}…", name, label, &hex(&input)[..64.min(2 * input.len())]));
+    o.evals(4);
+    for c in [Compress::Yes, Compress::No] {
+        for val in [Validate::Yes, Validate::No] {
+            let mn = format!("{}.{}", cname(c), vname(val));
+            let mut rd = CountRead::new(&input);
+            let res = no_panic("deserialize", || PairingOutput::<E>::deserialize_with_mode(&mut rd, c, val))?;
+            ensure!(rd.pos <= cx.size, "read-past-size", "{}: {} bytes consumed, advertised size {}", mn, rd.pos, cx.size);
+            match res {
+                Ok(f) => {
+                    o.class(if val == Validate::Yes { "ok.checked" } else { "ok.unchecked" });
+                    if val == Validate::Yes {
+                        ensure!(f.0.canonical(), format!("coordinates-not-reduced.{}", mn), "non-reduced coefficients accepted");
+                        ensure!(!must_err, format!("accepted.{}.{}", label, mn), "{}: class {} accepted: {:?}", mn, label, f.0.to_o());
+                        ensure!(ref_pow(&f.0, &cx.r).is_one(), format!("not-in-target-group.{}", mn), "{}: accepted element with f^r != 1: {:?}", mn, f.0.to_o());
+                    }
+                    if let (Some(e), Some(true)) = (elem, in_gt) {
+                        ensure!(f.0 == e, format!("valid.decodes-differently.{}", mn), "valid encoding decodes to a different element");
+                    }
+                },
+                Err(err) => ensure!(in_gt != Some(true), format!("valid.rejected.{}", mn), "{}: encoding of an element with f^r = 1 rejected: {:?}", mn, err),
+            }
+        }
+    }
+    Ok(())
+}
+
+fn gt_rels<E: Pairing>(out: &mut Vec<Rel>, name: &'static str, tier: Tier, weight: u32)
+where
+    E::TargetField: OracleRepr,
+{
+    let cell: Arc<OnceLock<GtCtx<E>>> = Arc::new(OnceLock::new());
+    let d = E::TargetField::extension_degree() as usize;
+    let n = (<E::TargetField as Field>::BasePrimeField::MODULUS_BIT_SIZE as usize + 63) / 64;
+    let words = 2 * d * (2 * n + 8) + 64;
+    let cases = (tier.pick(600u32, 12000) / weight).max(30);
+    out.push(Rel::new(format!("pairing-output/{}", name), cases, words, move |t, o| gt_hostile::<E>(cell.get_or_init(GtCtx::<E>::new), name, t, o)).shrink_iters(200));
+}
+
+// ------------------------------------------------------------------------------------------
+// Vec<Affine>: the path real callers use (length prefix, elements read unchecked, batch_check afterwards)
+// ------------------------------------------------------------------------------------------
+
+fn vec_hostile<P: SWCurveConfig>(cx: &SwCtx<P>, name: &str, t: &mut Tape<'_>, o: &mut Obs) -> R
+where
+    P::BaseField: OracleRepr,
+{
+    let a = P::COEFF_A;
+    let c = if t.bool() { Compress::Yes } else { Compress::No };
+    let n = t.range(0, 6) as usize;
+    let bad_at = if n > 0 && t.chance(3, 5) { Some(t.idx(n)) } else { None };
+    let mut body = Vec::new();
+    let mut pts = Vec::new();
+    let mut bad_label = "all-valid";
+    for i in 0..n {
+        let q = sw_add(&a, &cx.pool[t.idx(cx.pool.len())], &cx.pool[t.idx(cx.pool.len())]);
+        if Some(i) == bad_at {
+            // off-curve (uncompressed), outside the subgroup, or without root (compressed)
+            let k = t.below(3);
+            if k == 0 && !cx.outside.is_empty() {
+                let (z, _) = cx.outside[t.idx(cx.outside.len())];
+                bad_label = "one-outside-subgroup";
+                body.extend(ser(&sw_to_affine::<P>(&z), c)?);
+            } else if c == Compress::No {
+                let (x, y) = match cx.pool[0] {
+                    Sw::Aff(x, y) => (x, y),
+                    _ => unreachable!(),
+                };
+                let four = P::BaseField::from(4u64);
+                bad_label = "one-off-curve";
+                body.extend(ser(&SwAffine::<P>::new_unchecked(x * four, y * four.double()), c)?);
+            } else {
+                bad_label = "one-without-root";
+                body.extend(ser(&SwAffine::<P>::new_unchecked(cx.noroot[0], P::BaseField::one()), c)?);
+            }
+        } else {
+            body.extend(ser(&sw_to_affine::<P>(&q), c)?);
+        }
+        pts.push(q);
+    }
+    // length prefix: honest, or hostile (huge / larger than the data)
+    let (len, llabel): (u64, &'static str) = match t.weighted(&[6, 1, 1, 1]) {
+        0 => (n as u64, "honest-length"),
+        1 => (u64::MAX, "length=2^64-1"),
+        2 => (1 << t.range(20, 62), "length=2^k"),
+        _ => (n as u64 + 1 + t.below(4), "length>data"),
+    };
+    let mut input = len.to_le_bytes().to_vec();
+    input.extend(&body);
+    let honest = llabel == "honest-length";
+    if honest {
+        let pad = t.idx(9);
+        input.extend(t.bytes(pad));
+    }
+    o.class(bad_label);
+    o.class(llabel);
+    o.nt(bad_at.is_some() || !honest);
+    o.show(|| format!("{}: Vec<Affine> {} n={} {} {} ({} bytes)", name, cname(c), n, bad_label, llabel, input.len()));
+    let limit = 8 + (n + 8) * cx.size[ci(c)];
+    for val in [Validate::Yes, Validate::No] {
+        let mut rd = CountRead::new(&input);
+        let res = no_panic("deserialize.vec", || Vec::<SwAffine<P>>::deserialize_with_mode(&mut rd, c, val))?;
+        ensure!(rd.pos <= limit, "read-past-size", "{} bytes consumed", rd.pos);
+        match res {
+            Ok(v) => {
+                ensure!(honest, format!("vec.accepted.{}", llabel), "a vector whose length prefix exceeds the data was accepted ({} elements)", v.len());
+                ensure!(v.len() == n, "vec.length", "{} elements for prefix {}", v.len(), n);
+                if val == Validate::Yes {
+                    ensure!(bad_at.is_none(), format!("vec.accepted.{}.{}", bad_label, cname(c)), "vector with an invalid element at {:?} accepted", bad_at);
+                    for (q, want) in v.iter().zip(&pts) {
+                        let q = sw_from_affine::<P>(q);
+                        ensure!(SwCtx::<P>::on_curve(&q) && cx.insub(&q), "vec.invalid-element", "accepted element {:?} is not a subgroup point", q);
+                        ensure!(q == *want, "vec.decodes-differently", "element decodes to {:?}, expected {:?}", q, want);
+                    }
+                }
+            },
+            Err(err) => ensure!(!(honest && bad_at.is_none()), "vec.valid-rejected", "valid vector rejected: {:?}", err),
+        }
+    }
+    Ok(())
+}
+
+fn vec_rels<P: SWCurveConfig>(out: &mut Vec<Rel>, name: &'static str, tier: Tier, zcash: bool)
+where
+    P::BaseField: OracleRepr,
+{
+    let cell: Arc<OnceLock<SwCtx<P>>> = Arc::new(OnceLock::new());
+    let cases = tier.pick(250u32, 5000);
+    out.push(Rel::new(format!("vec/{}", name), cases, 64, move |t, o| vec_hostile::<P>(cell.get_or_init(|| SwCtx::<P>::new(zcash, false)), name, t, o)).isolated(64 << 20));
+}
+
+// ------------------------------------------------------------------------------------------
+
+fn relations(tier: Tier) -> Vec<Rel> {
+    let mut out = Vec::new();
+    macro_rules! zf {
+        ($($n:ident),*) => { $( field_rels::<vh_core::zoo::$n>(&mut out, concat!("zoo.", stringify!($n)), tier, 1); )* };
+    }
+    zf!(T3, T251, M31, P64, P65, P128, P250, C25519, Secp256k1, B5, N6, B8, N13, H1n);
+    macro_rules! tower {
+        ($ty:ty, $name:expr, $w:expr) => {
+            field_rels::<$ty>(&mut out, $name, tier, $w);
+        };
+    }
+    tower!(ZSecpFq2, "harness.Fp2(secp256k1 modulus)", 2);
+    tower!(ark_bls12_381::Fq2, "bls12_381.Fq2", 2);
+    tower!(ark_bls12_381::Fq12, "bls12_381.Fq12", 12);
+    tower!(ark_mnt6_298::Fq3, "mnt6_298.Fq3", 3);
+    tower!(ark_mnt6_298::Fq6, "mnt6_298.Fq6", 6);
+    tower!(ark_mnt4_753::Fq4, "mnt4_753.Fq4", 8);
+
+    macro_rules! sw {
+        ($cfg:ty, $name:expr, $z:expr, $w:expr) => {
+            sw_rels::<$cfg>(&mut out, $name, tier, $w, $z, false);
+        };
+    }
+    for_each_shipped_sw!(sw);
+    macro_rules! te {
+        ($cfg:ty, $name:expr, $z:expr, $w:expr) => {
+            te_rels::<$cfg>(&mut out, $name, tier, $w, false);
+        };
+    }
+    for_each_shipped_te!(te);
+    macro_rules! toysw {
+        ($cfg:ty, $name:expr, $p:expr, $a:expr, $b:expr, $h:expr, $r:expr, $big:expr) => {
+            sw_rels::<$cfg>(&mut out, concat!("toy.", $name), tier, 1, false, true);
+        };
+    }
+    vh_core::for_each_toy_sw!(toysw);
+    macro_rules! toyte {
+        ($cfg:ty, $name:expr, $p:expr, $a:expr, $d:expr, $h:expr, $r:expr, $complete:expr, $big:expr) => {
+            te_rels::<$cfg>(&mut out, concat!("toy.", $name), tier, 1, true);
+        };
+    }
+    vh_core::for_each_toy_te!(toyte);
+
+    gt_rels::<ark_bls12_381::Bls12_381>(&mut out, "bls12_381", tier, 3);
+    gt_rels::<ark_bn254::Bn254>(&mut out, "bn254", tier, 2);
+    gt_rels::<ark_bls12_377::Bls12_377>(&mut out, "bls12_377", tier, 3);
+    gt_rels::<ark_mnt4_298::MNT4_298>(&mut out, "mnt4_298", tier, 1);
+    gt_rels::<ark_mnt6_298::MNT6_298>(&mut out, "mnt6_298", tier, 2);
+    gt_rels::<ark_bw6_761::BW6_761>(&mut out, "bw6_761", tier, 6);
+
+    vec_rels::<ark_bls12_381::g1::Config>(&mut out, "bls12_381.G1", tier, true);
+    vec_rels::<ark_bn254::g1::Config>(&mut out, "bn254.G1", tier, false);
+    vec_rels::<ark_bls12_377::g1::Config>(&mut out, "bls12_377.G1", tier, false);
+    out
+}
+
 fn main() {
-    eprintln!("C10: check not implemented");
-    std::process::exit(2);
+    vh_core::engine::main(PropSpec {
+        id: "C10",
+        rule: "Byte strings are built by class and fed to deserialize_with_mode (Affine 3/4, Projective 1/4) in one compression mode and both validation modes, behind a counting reader, followed by 0..16 random padding bytes: (a) valid encodings of subgroup points; (b) 1..3 bit flips, arbitrary flag patterns (generic 2-bit SW / 1-bit TE flags, 3-flag zcash header of curves/bls12_381); (c) compressed x (resp. y) without square root by the harness' Euler criterion; (d) on-curve points outside the subgroup (from small/edge x, r*R, points of small prime order, subgroup point + torsion point; TE: orders 2 and 4), verified by reference multiplication; (e) off-curve (x,y) uncompressed: (t^2 x, t^3 y) with t in the prime subfield, y+1, x+1, random, verified with the harness' curve equation; (f) coordinates + p or with an unused high bit set; (g) truncation to a shorter length; (h) uniform / plausible (all coordinates reduced) / constant bytes. Same for 14 prime fields, 6 towers and PairingOutput of 6 pairings (-g, g*c with c in F_p, arbitrary elements, 0). Toy curves additionally: every 2-byte (1-byte) compressed string and every (x byte, y byte, 5 values of the flag byte) uncompressed string exhaustively, with the expectation derived from the harness' own decoding and point table. Vec<Affine> with hostile length prefixes runs in a child process under an allocation guard. Oracles: no panic; bytes consumed <= serialized_size; Validate::Yes and Ok(P) => coordinates reduced, curve equation holds as evaluated by vh_core::curve, r*P = O by double-and-add over double_in_place/+= (toy: affine oracle law); classes (c)-(f) must be Err with Validate::Yes; class (a) must be Ok with the same point; PairingOutput: f^r = 1 by square-and-multiply. Non-trivial: class other than (a); distinct = distinct decoded choice sequences.",
+        assumptions: &[
+            "hostile encodings of (c)-(e) are produced with arkworks' own serializer from unchecked points (C09 checks the serializer); (f) and flag mutations use the harness' description of the byte layout (size.layout fails if it disagrees with serialized_size)",
+            "Validate::No carries no validity requirement (only no panic / bounded read); truncated inputs carry no Err requirement beyond the generic oracle",
+            "reference multiplication uses arkworks' projective addition/doubling (C03's subject); on twisted-Edwards curves with an incomplete law the context points are classified with the affine oracle law",
+            "compressed infinity with a non-zero x and the sign flag in uncompressed form are accepted encodings of valid points (not a violation of the statement)",
+        ],
+        relations,
+    })
 }
